@@ -2,7 +2,7 @@ CONSTANTS
   G = 2
   Ws = {1}
   D <- DQuick
-  Als = {0, 1, 2}
+  Als = {1}
   HasFill = TRUE
   EdgesUsed <- TwoEdges
 SPECIFICATION Spec
